@@ -28,6 +28,7 @@ pub fn alphabet() -> Vec<Ev> {
         Expire(Ty::Msd),
         Expire(Ty::Cdb),
         Restart,
+        Reconfigure,
     ]
 }
 
@@ -121,6 +122,36 @@ pub fn run(ctx: &Ctx) -> ! {
         let edits_csd = |h: &[Ev]| standard_edits(h, &dev_csd, 10);
         let st = ex_csd.ball(&nom_csd, &edits_csd, 1, &mut rep);
         rep.extra("ball_cardano_stake_distribution_world", json!({"nominal_len": nom_csd.len(), "deviation_alphabet": dev_csd.len(), "bound_completed": st.depth_completed, "histories": st.transitions, "states": st.states}));
+    }
+
+    // (e) reconfiguration: the operator restarts the node with other protocol parameters. The
+    // epoch settings are write-once and recorded two epochs ahead, so the effect shows in the
+    // certificates two epochs later: the default-configuration world over six epochs, with a
+    // Reconfigure (thorough: any two of Reconfigure / Restart) inserted anywhere; every
+    // certificate must carry the parameters the reference model recorded for its epoch.
+    {
+        use crate::world::Kind;
+        let run_rc = |h: &[Ev]| crate::sys::replay_kind(&scratch, h, 3, 1, Kind::MsdOnly);
+        let ex_rc = Explorer { threads: ctx.threads(), budget: None, run: &run_rc };
+        let mut nom_rc: Vec<Ev> = vec![Ev::Tick, Ev::RegisterAll];
+        for _ in 0..ctx.tier.pick(4, 5) {
+            nom_rc.extend([Ev::Epoch(1), Ev::Tick, Ev::Tick, Ev::Tick, Ev::RegisterAll, Ev::SigAll(Ty::Msd), Ev::Tick, Ev::Quiesce]);
+        }
+        let dev_rc: Vec<Ev> = if quick { vec![Ev::Reconfigure] } else { vec![Ev::Reconfigure, Ev::Restart] };
+        let edits_rc = |h: &[Ev]| -> Vec<Vec<Ev>> {
+            // insertions only (a deleted or replaced nominal event is what parts a/b explore)
+            let mut out = vec![];
+            for p in 0..=h.len() {
+                for d in &dev_rc {
+                    let mut x = h.to_vec();
+                    x.insert(p, d.clone());
+                    out.push(x);
+                }
+            }
+            out
+        };
+        let st = ex_rc.ball(&nom_rc, &edits_rc, ctx.tier.pick(1, 2), &mut rep);
+        rep.extra("ball_reconfiguration_world", json!({"nominal_len": nom_rc.len(), "deviation_alphabet": dev_rc.len(), "bound_completed": st.depth_completed, "histories": st.transitions, "states": st.states}));
     }
 
     // (c) operation interleavings at the hook points: while one operation is parked at a point,
